@@ -7,10 +7,13 @@ import Mathlib.Tactic.Common
 any sequence of other calculations …, whether driver and parameter objects are fresh or reused …"
 
 The process-global state modelled in `Model/History.lean` is the set of class attributes of
-`scf_loop.SCF`.  Full statement wanted: for ALL histories `run jobs r ops = ownOutputs jobs ops`.
-That is FALSE of the code (`interleaving_leak_counterexample`, finding F13); it holds for nested
-histories (`nested_histories_noninterfering`) and, for all histories, of the repaired semantics
-(`fixed_model_noninterfering`).
+`scf_loop.SCF`.  Full statement: for ALL histories `run jobs c ops = ownOutputs jobs ops`.
+
+* Live code (`History.run`: `backward` takes `eps`/method from its own `ctx`): the full statement
+  holds — `fixed_model_noninterfering`.
+* Pinned commit (`History.runLegacy`: `backward` read the class attributes): FALSE —
+  `interleaving_leak_counterexample` (finding F13, kept as the historical witness); it held only
+  for nested histories — `nested_histories_noninterfering`.
 
 Not expressible in this model (runtime behaviour, covered by probes only): thread-count
 independence and bitwise repeatability.
@@ -75,7 +78,7 @@ theorem own_of_lt (jobs : List Settings) (j : Nat) (h : j < jobs.length) :
 /-- generalised form: the registers are currently owned by `o` -/
 theorem nested_aux (jobs : List Settings) (ops : List Op) :
     ∀ (r : Regs) (o : Option Nat), (∀ j, o = some j → r.read = own jobs j) →
-      Nested jobs o ops → run jobs r ops = ownOutputs jobs ops := by
+      Nested jobs o ops → runLegacy jobs r ops = ownOutputs jobs ops := by
   induction ops with
   | nil => intro r o _ _; rfl
   | cons op ops ih =>
@@ -84,63 +87,63 @@ theorem nested_aux (jobs : List Settings) (ops : List Op) :
     | fwd j =>
       obtain ⟨hj, hn⟩ := hn
       have hjob := own_of_lt jobs j hj
-      simp only [run, step, hjob, ownOutputs]
+      simp only [runLegacy, stepLegacy, hjob, ownOutputs]
       apply ih _ (some j) _ hn
       intro k hk
       cases hk
       simp [own, hjob, forward_read]
     | bwd j =>
       obtain ⟨ho, hn⟩ := hn
-      simp only [run, step, ownOutputs]
+      simp only [runLegacy, stepLegacy, ownOutputs]
       rw [hr j ho]
       congr 1
       exact ih r o hr hn
 
-/-- **C15 (1), nested histories**: whatever state `r` earlier calculations left in the class
+/-- **C15 (1), pinned commit, nested histories**: whatever state `r` earlier calculations left in the class
     registers, a nested history produces exactly the outputs each job would produce alone. -/
 theorem nested_histories_noninterfering (jobs : List Settings) (r : Regs) (ops : List Op)
-    (hn : Nested jobs none ops) : run jobs r ops = ownOutputs jobs ops :=
+    (hn : Nested jobs none ops) : runLegacy jobs r ops = ownOutputs jobs ops :=
   nested_aux jobs ops r none (by intro j h; cases h) hn
 
 theorem run_append (jobs : List Settings) (h ops : List Op) (r : Regs) :
-    run jobs r (h ++ ops) = run jobs r h ++ run jobs (after jobs r h) ops := by
+    runLegacy jobs r (h ++ ops) = runLegacy jobs r h ++ runLegacy jobs (after jobs r h) ops := by
   induction h generalizing r with
   | nil => rfl
   | cons op h ih =>
     cases op with
     | fwd j =>
       cases hjob : job? jobs j with
-      | none => simp only [List.cons_append, run, after, step, hjob]; exact ih _
-      | some s => simp only [List.cons_append, run, after, step, hjob]; exact ih _
-    | bwd j => simp only [List.cons_append, run, after, step, List.cons_append, ih]
+      | none => simp only [List.cons_append, runLegacy, after, stepLegacy, hjob]; exact ih _
+      | some s => simp only [List.cons_append, runLegacy, after, stepLegacy, hjob]; exact ih _
+    | bwd j => simp only [List.cons_append, runLegacy, after, stepLegacy, List.cons_append, ih]
 
 /-- the same, "for every prefix history": appending a nested history to ANY history `h`
     (nested or not, from any initial state) yields the stand-alone outputs for the appended part -/
 theorem nested_after_any_prefix (jobs : List Settings) (r : Regs) (h ops : List Op)
     (hn : Nested jobs none ops) :
-    run jobs r (h ++ ops) = run jobs r h ++ ownOutputs jobs ops := by
+    runLegacy jobs r (h ++ ops) = runLegacy jobs r h ++ ownOutputs jobs ops := by
   rw [run_append, nested_histories_noninterfering jobs _ ops hn]
 
 /-- non-vacuity: two jobs, used one after the other, twice -/
 example :
     let jobs : List Settings := [{ eps := 1, method := 10 }, { eps := 2, method := 20 }]
     Nested jobs none [.fwd 0, .bwd 0, .fwd 1, .bwd 1, .bwd 1, .fwd 0, .bwd 0] ∧
-    run jobs {} [.fwd 0, .bwd 0, .fwd 1, .bwd 1, .bwd 1, .fwd 0, .bwd 0]
+    runLegacy jobs {} [.fwd 0, .bwd 0, .fwd 1, .bwd 1, .bwd 1, .fwd 0, .bwd 0]
       = [some (1, 10), some (2, 20), some (2, 20), some (1, 10)] := by decide
 
-/-- **C15 (2), finding F13**: the full statement is false of the code.  Two jobs with different
+/-- **C15 (2), finding F13**: the full statement was false of the code at the pinned commit.  Two jobs with different
     tolerances/methods; the forward of job 1 runs between the forward and the backward of job 0
     (two loss terms built first, back-propagated afterwards): the backward of job 0 uses job 1's
     tolerance and method. -/
 theorem interleaving_leak_counterexample :
     ∃ (jobs : List Settings) (ops : List Op),
-      run jobs {} ops ≠ ownOutputs jobs ops ∧
-      run jobs {} ops = [own jobs 1] ∧ ownOutputs jobs ops = [own jobs 0] ∧
+      runLegacy jobs {} ops ≠ ownOutputs jobs ops ∧
+      runLegacy jobs {} ops = [own jobs 1] ∧ ownOutputs jobs ops = [own jobs 0] ∧
       ops = [.fwd 0, .fwd 1, .bwd 0] :=
   ⟨[{ eps := 1, method := 10 }, { eps := 2, method := 20 }], [.fwd 0, .fwd 1, .bwd 0],
     by decide, by decide, by decide, rfl⟩
 
-/-! ## the repaired semantics -/
+/-! ## the live (repaired) semantics -/
 
 /-- every `bwd j` has *some* earlier `fwd j` (arbitrary interleaving allowed); `seen` = jobs
     forwarded so far -/
@@ -156,7 +159,7 @@ instance (jobs : List Settings) : ∀ seen ops, Decidable (Preceded jobs seen op
 
 theorem fixed_aux (jobs : List Settings) (ops : List Op) :
     ∀ (c : Ctx) (seen : List Nat), (∀ j ∈ seen, c j = own jobs j) →
-      Preceded jobs seen ops → runFixed jobs c ops = ownOutputs jobs ops := by
+      Preceded jobs seen ops → run jobs c ops = ownOutputs jobs ops := by
   induction ops with
   | nil => intro c seen _ _; rfl
   | cons op ops ih =>
@@ -165,7 +168,7 @@ theorem fixed_aux (jobs : List Settings) (ops : List Op) :
     | fwd j =>
       obtain ⟨hj, hp⟩ := hp
       have hjob := own_of_lt jobs j hj
-      simp only [runFixed, stepFixed, hjob, ownOutputs]
+      simp only [run, step, hjob, ownOutputs]
       apply ih _ (j :: seen) _ hp
       intro k hk
       by_cases hkj : k = j
@@ -174,23 +177,23 @@ theorem fixed_aux (jobs : List Settings) (ops : List Op) :
         simp [Ctx.save, hkj, hc k this]
     | bwd j =>
       obtain ⟨hj, hp⟩ := hp
-      simp only [runFixed, stepFixed, ownOutputs]
+      simp only [run, step, ownOutputs]
       rw [hc j hj]
       congr 1
       exact ih c seen hc hp
 
-/-- **C15 (3)**: with `eps`/method carried in `ctx`, EVERY history in which each backward has an
+/-- **C15 (3), live code**: with `eps`/method carried in `ctx`, EVERY history in which each backward has an
     earlier forward of its job — interleaved or not, from any initial context — produces the
     stand-alone outputs. -/
 theorem fixed_model_noninterfering (jobs : List Settings) (c : Ctx) (ops : List Op)
-    (hp : Preceded jobs [] ops) : runFixed jobs c ops = ownOutputs jobs ops :=
+    (hp : Preceded jobs [] ops) : run jobs c ops = ownOutputs jobs ops :=
   fixed_aux jobs ops c [] (by intro j h; cases h) hp
 
 /-- non-vacuity: the leaking history of F13 is covered by the repaired semantics -/
 example :
     let jobs : List Settings := [{ eps := 1, method := 10 }, { eps := 2, method := 20 }]
     Preceded jobs [] [.fwd 0, .fwd 1, .bwd 0, .bwd 1] ∧ ¬ Nested jobs none [.fwd 0, .fwd 1, .bwd 0, .bwd 1] ∧
-    runFixed jobs (fun _ => none) [.fwd 0, .fwd 1, .bwd 0, .bwd 1] = [some (1, 10), some (2, 20)] := by
+    run jobs (fun _ => none) [.fwd 0, .fwd 1, .bwd 0, .bwd 1] = [some (1, 10), some (2, 20)] := by
   decide
 
 /-- nested histories are a special case of the histories the repaired semantics covers -/
